@@ -138,3 +138,40 @@ Proof.
     pose proof (bsf_wt_xorv r e n Lr L) as Hx.
     assert (2 * ((d - 1) / 2) <= d - 1) by (apply Nat.mul_div_le; lia). lia.
 Qed.
+
+(* ---- instantiating the distance hypothesis by exhaustive search over the low-weight operators ---- *)
+Lemma pauli_wt_le_length (s : pstr) : pauli_wt s <= length s.
+Proof. induction s as [|p s IH]; cbn; auto. destruct p; cbn; lia. Qed.
+Lemma in_ibsf_wt n lo hi e : lo <= hi -> length e = 2 * n -> lo <= bsf_wt e <= hi -> In e (ibsf n lo hi).
+Proof.
+  intros Hlh L Hw. assert (Hev : Nat.even (length e) = true) by (rewrite L; apply Nat.even_spec; now exists n).
+  rewrite <- (to_of_bsf e Hev) in Hw |- *. rewrite bsf_wt_to_bsf in Hw. unfold ibsf. apply in_map. apply ipauli_spec; auto.
+  split; auto. pose proof (to_bsf_length (of_bsf e)) as H. rewrite (to_of_bsf e Hev) in H. lia.
+Qed.
+Definition low_weight_trivial (n : nat) (stabs : list bsf) (d : nat) : bool :=
+  forallb (fun v => negb (is_zero (syndrome_of stabs v)) || in_spanb (2 * n) stabs v) (ibsf n 0 (d - 1)).
+Theorem low_weight_trivial_sound n stabs d : 1 <= d -> low_weight_trivial n stabs d = true -> distance_lb n stabs d.
+Proof.
+  intros Hd H v L Hz Hw. unfold low_weight_trivial in H. rewrite forallb_forall in H.
+  specialize (H v (in_ibsf_wt n 0 (d - 1) v ltac:(lia) L ltac:(lia))).
+  apply orb_true_iff in H. destruct H as [H|H]; [|now apply in_spanb_sound].
+  apply negb_true_iff in H. assert (Hz' : is_zero (syndrome_of stabs v) = true).
+  { unfold is_zero. apply forallb_forall. intros x Hx. unfold syndrome_of in Hx. apply in_map_iff in Hx.
+    destruct Hx as (s & <- & Hs). now rewrite (Hz s Hs). }
+  congruence.
+Qed.
+
+Definition five_stabs : list bsf := map to_bsf [[pX;pZ;pZ;pX;pI]; [pI;pX;pZ;pZ;pX]; [pX;pI;pX;pZ;pZ]; [pZ;pX;pI;pX;pZ]].
+Definition steane_stabs : list bsf := map to_bsf
+  [[pI;pI;pI;pX;pX;pX;pX]; [pI;pX;pX;pI;pI;pX;pX]; [pX;pI;pX;pI;pX;pI;pX];
+   [pI;pI;pI;pZ;pZ;pZ;pZ]; [pI;pZ;pZ;pI;pI;pZ;pZ]; [pZ;pI;pZ;pI;pZ;pI;pZ]].
+Lemma five_distance_lb : distance_lb 5 five_stabs 3.
+Proof. apply low_weight_trivial_sound; [lia|]. vm_compute. reflexivity. Qed.
+Lemma steane_distance_lb : distance_lb 7 steane_stabs 3.
+Proof. apply low_weight_trivial_sound; [lia|]. vm_compute. reflexivity. Qed.
+Theorem five_naive_corrects e : length e = 10 -> bsf_wt e <= 1 ->
+  exists r, naive five_stabs 5 (syndrome_of five_stabs e) = Some r /\ in_spanP 10 five_stabs (xorv r e).
+Proof. intros L W. apply (naive_corrects 5 five_stabs 3); auto. apply five_distance_lb. Qed.
+Theorem steane_naive_corrects e : length e = 14 -> bsf_wt e <= 1 ->
+  exists r, naive steane_stabs 7 (syndrome_of steane_stabs e) = Some r /\ in_spanP 14 steane_stabs (xorv r e).
+Proof. intros L W. apply (naive_corrects 7 steane_stabs 3); auto. apply steane_distance_lb. Qed.
